@@ -55,7 +55,7 @@ def E4():
     inv = {"name": "INV", "ports": [port("i", 1, "in"), port("o", 1, "out")], "insts": [], "nets": []}
     ff = {"name": "FF", "ports": [port("d", 1, "in"), port("q", 1, "out")], "insts": [], "nets": []}
     T = {"name": "top", "ports": [port("x", 1, "in"), port("z", 1, "out")],
-         "insts": [{"name": "u_inv", "ref": ["gates", "INV"]}, {"name": "u_ff", "ref": ["regs", "FF"], "props": [["A b", 1], ["B", "two"], ["C", False]]}],
+         "insts": [{"name": "u_inv", "ref": ["gates", "INV"]}, {"name": "u_ff", "ref": ["regs", "FF"], "props": [["A b", 1], ["B", "two"], ["C", False], ["a_B", 5]]}],
          "nets": [{"name": "n0", "bits": [[["P", "x", 0], ["I", "u_inv", "i", 0]]]},
                   {"name": "n1", "bits": [[["I", "u_inv", "o", 0], ["I", "u_ff", "d", 0]]]},
                   {"name": "n2", "bits": [[["I", "u_ff", "q", 0], ["P", "z", 0]]]}]}
@@ -85,7 +85,18 @@ def E6():
             "libs": [{"name": "prims", "defs": [dict(L1)]}, {"name": "impl_a", "defs": [ta]}, {"name": "impl_b", "defs": [tb]}]}
 
 
-BASES = {"E1": E1, "E2": E2, "E3": E3, "E4": E4, "E5": E5, "E6": E6}
+def E7():
+    """two libraries declare a cell X of the same shape; both are instanced, one instance stays open."""
+    xa = {"name": "X", "ports": [port("p", 1, "in")], "insts": [], "nets": []}
+    xb = {"name": "X", "ports": [port("p", 1, "in")], "insts": [], "nets": []}
+    T = {"name": "top", "ports": [port("i", 1, "in")],
+         "insts": [{"name": "u1", "ref": ["la", "X"]}, {"name": "u2", "ref": ["lb", "X"]}, {"name": "u3", "ref": ["la", "X"]}],
+         "nets": [{"name": "w", "bits": [[["P", "i", 0], ["I", "u1", "p", 0]]]}]}
+    return {"name": "e7", "top": ["work", "top"], "top_name": "top",
+            "libs": [{"name": "la", "defs": [xa]}, {"name": "lb", "defs": [xb]}, {"name": "work", "defs": [T]}]}
+
+
+BASES = {"E1": E1, "E2": E2, "E3": E3, "E4": E4, "E5": E5, "E6": E6, "E7": E7}
 
 
 def bus_renderings(width):
